@@ -475,7 +475,20 @@ def rule_column_order(F, ev, R, config, rule="R-COLUMN-ORDER"):
                 fsn = [e for e in rv["place"]["proj"] if e["k"] == "field" and e.get("owner") in (ADT_UNFINISHED, ADT_SEPMODEL) and e["name"] in (sm["functions"], "basefunctions")]
                 if fsn:
                     cons = [c for c in consumers(b, s["place"]["l"]) if c["kind"] == "call"]
-                    ok = len(cons) == 1 and cons[0]["cid"].endswith("Vec::push")
+
+                    def only_pushes(c, depth=0):
+                        """the call is Vec::push, or a local forwarding method whose `&mut self` is only ever pushed to"""
+                        if c["cid"].endswith("Vec::push"):
+                            return True
+                        fn_ = c["term"].get("fn", {})
+                        k_ = fn_.get("resolved_key") or fn_.get("key")
+                        hb = F.bodies.get(k_)
+                        if hb is None or depth > 2 or c.get("arg") is None or c["arg"] < 0:
+                            return False
+                        inner = [x for x in consumers(hb, c["arg"] + 1) if x["kind"] == "call"]
+                        others = [x for x in consumers(hb, c["arg"] + 1) if x["kind"] not in ("call",)]
+                        return len(inner) == 1 and not [x for x in others if x["kind"] in ("store", "return", "agg")] and only_pushes(inner[0], depth + 1)
+                    ok = len(cons) == 1 and only_pushes(cons[0])
                     pushes += 1
                     R.add(rule, config, b.key, "functions-only-pushed", ok, "" if ok else "the function list is mutated by `%s` (order of columns no longer the order of addition)" % [c["cid"] for c in cons], s.get("span"))
             fsn = [e for e in s["place"]["proj"] if e["k"] == "field" and e.get("owner") in (ADT_UNFINISHED, ADT_SEPMODEL) and e["name"] in (sm["functions"], "basefunctions")]
